@@ -42,7 +42,7 @@ func valBoolNotEmptyAsString(fi *finfo, rv reflect.Value, addr uintptr) (any, re
 }
 
 func ivalBool(fi *finfo, rv reflect.Value, addr uintptr) (any, reflect.Value, bool) {
-	return rv.FieldByIndex(fi.index).Interface(), nilValue, false
+	return rv.FieldByIndex(fi.index).Bool(), nilValue, false
 }
 
 func ivalBoolAsString(fi *finfo, rv reflect.Value, addr uintptr) (any, reflect.Value, bool) {
